@@ -347,6 +347,25 @@ def check_cdp_delta(ctx, fi):
     ev = SymEval({}, atoms)
     # ---- which end is the lower one ----------------------------------------------------------
     a, b = S.true_var, S.false_var
+    # `max(1.01, L)`: the literal floor raised to a lower bound L on the optimal order.  The derivative (2a-1)rho - eps + log(1-1/a) is log(1-1/a) < 0
+    # at a = (1 + eps/rho)/2, so the optimum lies above that value: L may be it, nothing larger
+    S.inits = dict(S.inits)
+    for end in (a, b):
+        x = S.inits[end]
+        if isinstance(x, ast.Call) and U(x.func) == 'max' and len(x.args) == 2 and not x.keywords and any(isinstance(y, ast.Constant) for y in x.args):
+            lit = next(y for y in x.args if isinstance(y, ast.Constant))
+            L = next(y for y in x.args if y is not lit)
+            Lv = ev.ev(L)
+            bound = SymEval({'rho': sym(rho), 'eps': sym(eps)}, atoms, strict=True).ev(parse('(1 + eps/rho)/2'))
+            d_ = Lv - bound
+            if Lv.eq(bound) or (d_.is_rat() and (const(0) - d_).rat().sign_definite_nonneg()):
+                okL, whyL = True, 'at most the lower bound (1 + eps/rho)/2 on the optimal order'
+            elif d_.is_rat() and d_.rat().sign_definite_nonneg():
+                okL, whyL = False, 'ABOVE the lower bound (1 + eps/rho)/2 by %s: for large rho the search starts above the optimal order and returns a looser delta' % d_
+            else:
+                raise AnalysisError('cdp_delta: lower end raised to `%s`, which this analysis cannot compare with (1 + eps/rho)/2' % U(L)[:60])
+            ctx.ob('alpha-range', fi, S.where(end), okL, 'the lower end of the order bracket is raised to `%s`: %s' % (U(L)[:60], whyL), construct='raised lower end of the order bracket')
+            S.inits[end] = lit
     ia, ib = ev.ev(S.inits[a]), ev.ev(S.inits[b])
     if (ib - ia).is_rat() and (ib - ia).rat().sign_definite_nonneg() and not (ib - ia).rat().iszero():
         lo, hi = a, b
